@@ -34,8 +34,9 @@ type sched struct {
 }
 
 type lockState struct {
-	writer  int // thread id+1 holding the write lock, 0 if none
-	readers map[int]int
+	writer         int // thread id+1 holding the write lock, 0 if none
+	readers        map[int]int
+	waitingWriters int
 }
 
 type wgState struct {
